@@ -66,7 +66,7 @@ Spec == Init /\ [][Next]_vars
 (* ------------------------- contract (reply clauses) --------------------- *)
 (* r is the observed reply record of a Call; the set of violated clauses   *)
 CallClauses(r, n) ==
-       (IF r.outcome = "ok" THEN {} ELSE {"API.call-raised"})
+       (IF r.outcome = "ok" \/ ("lenient" \in DOMAIN r /\ r.lenient) THEN {} ELSE {"API.call-raised"})   \* lenient: an observed call may be an intended invalid request
   \cup (IF r.outcome # "ok" THEN {}
         ELSE  (IF r.len = n THEN {} ELSE {"API.record-count"})
          \cup (IF r.echo THEN {} ELSE {"API.positions-echoed-in-order"})
@@ -74,8 +74,12 @@ CallClauses(r, n) ==
          \cup (IF {r.names[i] : i \in 1..Len(r.names)} \cap NonStd = {} THEN {} ELSE {"API.standard-names"})
          \cup (IF r.input_unchanged THEN {} ELSE {"API.input-modified"})
          \cup (IF r.same_as_array THEN {} ELSE {"API.container-equivalence"}))
+(* mode "observed": a construction recorded from somebody else's program (the repository's tests): whatever was  *)
+(* intended, a construction either succeeds or is refused with the documented ValueError                          *)
 ConstructClauses(r, mode) ==
-  IF r.outcome = ExpectConstruct(mode) THEN {} ELSE {"API.construct." \o mode}
+  IF mode = "observed"
+  THEN (IF r.outcome \in {"ok", "ValueError"} THEN {} ELSE {"API.construct-refused-with-" \o r.outcome})
+  ELSE IF r.outcome = ExpectConstruct(mode) THEN {} ELSE {"API.construct." \o mode}
 DumpClauses(r) ==
   IF r.outcome = "ok" /\ r.csv_exact /\ r.csv_rows THEN {} ELSE {"API.csv-roundtrip"}
 
